@@ -4,13 +4,19 @@ package querylog
 
 import (
 	"bytes"
+	"context"
 	"encoding/json"
 	"io"
 	"os"
 	"path/filepath"
 	"runtime"
+	"strconv"
+	"sync"
 	"syscall"
 	"time"
+
+	"github.com/AdguardTeam/AdGuardDNS/internal/agd"
+	"github.com/AdguardTeam/golibs/logutil/slogutil"
 )
 
 var verifTmpDir string
@@ -111,4 +117,56 @@ func verifRealPath(path string) string {
 		return filepath.Join(filepath.Dir(path), "querylog.jsonl")
 	}
 	return path
+}
+
+
+// verifStressLog looks natively for an interleaving of the write calls of concurrent
+// writers, which cannot be forced: 8 goroutines append 150 entries each to one regular
+// file; a line that is not exactly one entry's record, or a missing / duplicated
+// record, is reported.  With one write call per record (O_APPEND) none exists.
+func verifStressLog() (broken bool) {
+	old := runtime.GOMAXPROCS(8)
+	defer runtime.GOMAXPROCS(old)
+	d, err := os.MkdirTemp("", "verif-qlog-stress-")
+	if err != nil {
+		panic(err)
+	}
+	defer os.RemoveAll(d)
+	p := filepath.Join(d, "querylog.jsonl")
+	l := NewFileSystem(&FileSystemConfig{Logger: slogutil.NewDiscardLogger(), Path: p})
+	const writers, each = 8, 150
+	wg := &sync.WaitGroup{}
+	for w := 0; w < writers; w++ {
+		wg.Add(1)
+		go func() {
+			defer wg.Done()
+			for k := 0; k < each; k++ {
+				e := verifEntry()
+				e.ProfileID = agd.ProfileID("prof" + strconv.Itoa(1000+w))
+				e.DomainFQDN = "n" + strconv.Itoa(k) + ".w" + strconv.Itoa(w) + ".example."
+				_ = l.Write(context.Background(), e)
+			}
+		}()
+	}
+	wg.Wait()
+	b, err := os.ReadFile(p)
+	if err != nil {
+		return true
+	}
+	seen := map[string]int{}
+	lines := bytes.Split(bytes.TrimSuffix(b, []byte("\n")), []byte("\n"))
+	for _, ln := range lines {
+		var v struct {
+			Profile string `json:"b"`
+			FQDN    string `json:"n"`
+		}
+		if json.Unmarshal(ln, &v) != nil {
+			return true
+		}
+		seen[v.Profile+"/"+v.FQDN]++
+	}
+	if len(lines) != writers*each || len(seen) != writers*each {
+		return true
+	}
+	return false
 }
